@@ -24,6 +24,7 @@ from __future__ import annotations
 
 import itertools
 import logging
+import re
 from collections import deque
 from typing import TYPE_CHECKING, MutableSequence, Iterable, Any
 
@@ -204,10 +205,9 @@ def singleline_string_literal(string: str) -> str:
 
 def multiline_string_literal(string: str) -> str:
     string = str(string)[3:-3]
-    all_lines = string.splitlines()
-    if len(all_lines) > 0 and string.splitlines(keepends=True)[-1] != all_lines[-1]:
-        # The string ends with a line break. splitlines() doesn't return the (empty) last line after it.
-        all_lines.append("")
+    # Lines end where the source file's lines end (str.splitlines() would also split at form feeds, vertical tabs,
+    # NEL, U+2028, ... and those characters would be read as new lines).
+    all_lines = re.split(r"\r\n|\r|\n", string) if string != "" else []
     lines: list[str] = []
     last_line = ""
 
